@@ -32,6 +32,9 @@ func e2eTrack(c *e2eCtx, decoys bool) error {
 		"non-trivial = at least one tracking call was inserted", n, decoys)
 	c.parallel(n, func(i int, r *rand.Rand) {
 		o := proj.Opts{InScope: true, RootMain: r.Intn(3) == 0, Asm: true, Decoys: decoys, GoVersions: true, IgnoreMidLib: true}
+		// one decoy scenario in six: a main package nested in hack/gen below another main's directory,
+		// and only the outer one selected (the inner entry file has no change and must stay as it is)
+		o.InnerMain = decoys && i%6 == 3
 		s, err := c.newScenario(i, r, o, func(r *rand.Rand, old string) proj.Config {
 			cfg := randomConfig(r, old)
 			if decoys {
@@ -60,10 +63,11 @@ func e2eTrack(c *e2eCtx, decoys bool) error {
 		}
 		// a main whose directory extends or lies below another main's: select only the shorter one
 		directed := false
-		if r.Intn(2) == 0 {
+		if r.Intn(2) == 0 || o.InnerMain {
 			for _, a := range s.p.Pkgs {
 				for _, b := range s.p.Pkgs {
-					if a.IsMain && b.IsMain && a != b && a.Dir != "." && strings.HasPrefix(b.Dir, a.Dir) && !directed {
+					if a.IsMain && b.IsMain && a != b && a.Dir != "." && strings.HasPrefix(b.Dir, a.Dir) && !directed &&
+						(!o.InnerMain || strings.HasPrefix(b.Dir, a.Dir+"/")) {
 						s.cfg.MainEntries = []string{a.Dir}
 						proj.WriteConfig(s.dir, s.cfg)
 						s.desc = cfgDesc(s.cfg)
